@@ -10,18 +10,18 @@ import (
 )
 
 // verifJob reports a step that concerns a job to core.VerifHook (if
-// set): tab-separated point, id, schedule, the job's next time and the
-// caller's idea of now (both in Unix nanoseconds).  Called with the
-// Cron's lock held.
-func verifJob(point string, job *CronJob, now time.Time) {
+// set): tab-separated point, the Cron's name, id, schedule, the job's
+// next time and the caller's idea of now (both in Unix nanoseconds).
+// Called with the Cron's lock held.
+func verifJob(point string, name string, job *CronJob, now time.Time) {
 	if h := core.VerifHook; h != nil {
-		h(fmt.Sprintf("%s\t%s\t%s\t%d\t%d", point, job.Id, job.Schedule, job.Next.UnixNano(), now.UnixNano()))
+		h(fmt.Sprintf("%s\t%s\t%s\t%s\t%d\t%d", point, name, job.Id, job.Schedule, job.Next.UnixNano(), now.UnixNano()))
 	}
 }
 
 // verifRem reports a removal by id.
-func verifRem(point string, id string, found bool) {
+func verifRem(point string, name string, id string, found bool) {
 	if h := core.VerifHook; h != nil {
-		h(fmt.Sprintf("%s\t%s\t%v", point, id, found))
+		h(fmt.Sprintf("%s\t%s\t%s\t%v", point, name, id, found))
 	}
 }
